@@ -350,8 +350,14 @@ func (ch c12) connect(c *core.Ctx, env *hs.Env, cfg c12config, p c12packet, yiel
 			return viol("status-value", "ParameterStatus value wrong: "+classKey(k), fmt.Sprintf("key %q = %q want %q", k, g, e))
 		}
 	}
-	// what the handler sees
+	// what the handler sees - at once, or after some kilobytes of other traffic on the connection
 	cl.Wait()
+	if core.H64(p.shape())%4 == 1 {
+		for i := 0; i < 6; i++ {
+			cl.Step(pg.Query("filler " + strings.Repeat("x", 900+i)))
+		}
+		c.Count("contexts_read_after_5KB_of_traffic", 1)
+	}
 	cl.Step(pg.Query("read context"))
 	var rec *c12ctx
 	for _, e := range cl.C.Events() {
